@@ -4,7 +4,8 @@ Fault space (finite, independent of VERIF_SEED): for every seed document of sim.
   * truncation at every byte offset;
   * for every dictionary value / array element: replacement by a value of each other type, removal of the key,
     stream<->dict swap of a referenced object; for every reference: redirect to the containing object, to a
-    missing object, to an object whose value is a reference to itself, to a 2- or 3-object reference loop;
+    missing object, to an object whose value is a reference to itself, to a 2- or 3-object reference loop, and to a chain that
+    runs into a loop it is not part of (rho shape);
   * for every stream: a flipped byte and a cut at each of <= 16 payload positions, wrong /Length (+1, -1, 0, huge).
 Thorough enumerates all of it; quick takes a VERIF_SEED-chosen sample plus all truncation points of two seeds.
 Every faulted document runs through extract_text, extract_pages (consumed) and extract_text_to_fp(xml) under the
@@ -123,6 +124,8 @@ def structural_faults(seed):
                 yield ["ref", oid, path, "loop1"]
                 yield ["ref", oid, path, "loop2"]
                 yield ["ref", oid, path, "loop3"]
+                yield ["ref", oid, path, "rho1"]
+                yield ["ref", oid, path, "rho2"]
                 target = seed.objects.get(x.num)
                 if isinstance(target, Stream):
                     yield ["ref", oid, path, "stream->dict"]
@@ -203,6 +206,17 @@ def apply_fault(seed, f):
                 objs[nxt] = Ref(nxt + 1, 0)
                 objs[nxt + 1] = Ref(nxt + 2, 0)
                 objs[nxt + 2] = Ref(nxt, 0)
+                new = Ref(nxt, 0)
+            elif how == "rho1":
+                # a chain that runs *into* a cycle it is not part of: A -> B, B -> B
+                objs[nxt] = Ref(nxt + 1, 0)
+                objs[nxt + 1] = Ref(nxt + 1, 0)
+                new = Ref(nxt, 0)
+            elif how == "rho2":
+                # A -> B -> C -> B
+                objs[nxt] = Ref(nxt + 1, 0)
+                objs[nxt + 1] = Ref(nxt + 2, 0)
+                objs[nxt + 2] = Ref(nxt + 1, 0)
                 new = Ref(nxt, 0)
             elif how == "stream->dict":
                 d = dict(objs[old.num].dict)
@@ -295,7 +309,7 @@ def run(tape, ctx, item=None):
     devs = []
     fk, role = kind_of(f), role_of(seed, f)
     ctx.fault(f[0] if f[0] not in ("replace", "ref") else fk)
-    ctx.probe({"truncate": "truncation", "replace": "replace", "remove": "remove", "ref": "ref-loop" if f[0] == "ref" and f[3].startswith("loop") else "replace", "flip": "payload", "cut": "payload", "length": "payload", "cflip": "payload"}[f[0]])
+    ctx.probe({"truncate": "truncation", "replace": "replace", "remove": "remove", "ref": "ref-loop" if f[0] == "ref" and f[3][:3] in ("loo", "rho") else "replace", "flip": "payload", "cut": "payload", "length": "payload", "cflip": "payload"}[f[0]])
     outcomes = []
     for name, fn in entry_points(data):
         seams.CLOCK.start(budget)
